@@ -80,7 +80,7 @@ def classify(stderr):
     if kind is None:
         return None
     tail = stderr[pos:pos + 6000]
-    km = re.search(r' in (?:void |bool |int |[A-Za-z_:<>]+ )?([A-Za-z_0-9]+)<[^\n]*?/repo/pyamg/amg_core/([a-z_]+\.h):(\d+)', tail)
+    km = re.search(r' in (?:void |bool |int |[A-Za-z_:<>]+ )?([A-Za-z_0-9]+)<[^\n]*?/pyamg/amg_core/([a-z_]+\.h):(\d+)', tail)
     kernel = km.group(1) if km else 'unknown'
     where = '%s:%s' % (km.group(2), km.group(3)) if km else ''
     return kind, kernel, where, tail[:2500]
@@ -91,7 +91,7 @@ def kernel_leaks(stderr):
     res = []
     for block in re.split(r'\n\s*\n', stderr):
         if 'leak of' in block:
-            m = re.search(r'/repo/pyamg/amg_core/([a-z_]+\.h):(\d+)', block)
+            m = re.search(r'/pyamg/amg_core/([a-z_]+\.h):(\d+)', block)
             if m:
                 km = re.search(r' in (?:void |bool |int )?([A-Za-z_0-9]+)<', block)
                 res.append((km.group(1) if km else 'unknown', '%s:%s' % (m.group(1), m.group(2)), block[:1500]))
